@@ -79,6 +79,22 @@ func ruleEveryDumpableSent(c *eng.Ctx) {
 				c.Ok(rule, "sendNodes:callback-returns-walk-error", r.Pos(), "the callback passes on the error it was handed")
 			default:
 				call := eng.RootCall(o)
+				if call != nil {
+					// the result of a plain send helper: nil after the send, or the context's error
+					if h := call.Call.StaticCallee(); h != nil && sendHelperParam(c, h) >= 0 {
+						okHelper := true
+						for _, hr := range eng.Returns(h) {
+							for _, ho := range eng.Origins(eng.RetVal(hr, 0), nil) {
+								hc := eng.RootCall(ho)
+								if !eng.IsNilConst(ho) && !(hc != nil && hc.Call.IsInvoke() && hc.Call.Method.Name() == "Err") {
+									okHelper = false
+								}
+							}
+						}
+						c.Check(okHelper, rule, "sendNodes:callback-returns-send-helper-result", r.Pos(), "the callback returns the result of %s, which is nil after the send or ctx.Err()", c.P.FnName(h))
+						continue
+					}
+				}
 				isCtxErr := call != nil && call.Call.IsInvoke() && call.Call.Method.Name() == "Err"
 				c.Check(isCtxErr, rule, "sendNodes:callback-result", r.Pos(), "the callback returns only nil, the walk error or ctx.Err() — never a skip sentinel (%s)", c.P.Describe(o))
 			}
